@@ -21,31 +21,31 @@ theorem isASCIISpace_bridge (b : UInt8) :
 
 /-! ### trimTrailingWhitespace -/
 
-private theorem trimWS_nil : trimTrailingWS ([] : Bytes) = [] := by
+theorem trimWS_nil : trimTrailingWS ([] : Bytes) = [] := by
   simp [trimTrailingWS]
 
-private theorem trimWS_concat (l : Bytes) (c : UInt8) :
+theorem trimWS_concat (l : Bytes) (c : UInt8) :
     trimTrailingWS (l ++ [c]) = if Req.H1.isASCIISpace c then trimTrailingWS l else l ++ [c] := by
   unfold trimTrailingWS
   simp only [List.reverse_append, List.reverse_cons, List.reverse_nil, List.nil_append,
     List.singleton_append, List.dropWhile_cons]
   split <;> simp
 
-private theorem idx_last (l : Bytes) (c : UInt8) :
+theorem idx_last (l : Bytes) (c : UInt8) :
     idx? (l ++ [c]) (len (l ++ [c]) - (1 : Int)) = some c := by
   have h : len (l ++ [c]) - (1 : Int) = ((l.length : Nat) : Int) := by
     simp [len]
   rw [h, idx?_eq_getElem?]
   simp
 
-private theorem slice_init (l : Bytes) (c : UInt8) :
+theorem slice_init (l : Bytes) (c : UInt8) :
     slice? (l ++ [c]) (0 : Int) (len (l ++ [c]) - (1 : Int)) = some l := by
   have h : len (l ++ [c]) - (1 : Int) = ((l.length : Nat) : Int) := by
     simp [len]
   rw [h, slice?_to _ _ (by simp)]
   simp
 
-private theorem trim_loop (fuel : Nat) : ∀ b : Bytes, b.length < fuel →
+theorem trim_loop (fuel : Nat) : ∀ b : Bytes, b.length < fuel →
     trimTrailingWhitespace_loop1 fuel b = Res.ok (trimTrailingWS b) := by
   induction fuel with
   | zero => intro b h; omega
@@ -70,7 +70,7 @@ theorem trimTrailingWhitespace_bridge (b : Bytes) :
 
 /-! ### parseHexUint -/
 
-private theorem shift_or (n : UInt64) (d : UInt8) (hn : n.toNat < 2^60) (hd : d.toNat < 16) :
+theorem shift_or (n : UInt64) (d : UInt8) (hn : n.toNat < 2^60) (hd : d.toNat < 16) :
     ((n <<< (4 : UInt64)) ||| d.toUInt64).toNat = n.toNat * 16 + d.toNat := by
   rw [UInt64.toNat_or, UInt64.toNat_shiftLeft]
   simp
@@ -83,13 +83,13 @@ private theorem shift_or (n : UInt64) (d : UInt8) (hn : n.toNat < 2^60) (hd : d.
   omega
 
 /-- One iteration of the Go loop body, as a function: the digit value of a byte. -/
-private def digit (b : UInt8) : Option UInt8 :=
+def digit (b : UInt8) : Option UInt8 :=
   if 48 ≤ b ∧ b ≤ 57 then some (b - 48)
   else if 97 ≤ b ∧ b ≤ 102 then some (b - 97 + 10)
   else if 65 ≤ b ∧ b ≤ 70 then some (b - 65 + 10)
   else none
 
-private theorem digit_hexVal (b : UInt8) : (digit b).map UInt8.toNat = hexVal? b := by
+theorem digit_hexVal (b : UInt8) : (digit b).map UInt8.toNat = hexVal? b := by
   unfold digit hexVal?
   by_cases h1 : 48 ≤ b ∧ b ≤ 57
   · simp only [h1, and_self, if_true, Option.map_some]
@@ -119,7 +119,7 @@ private theorem digit_hexVal (b : UInt8) : (digit b).map UInt8.toNat = hexVal? b
         simp [this]
       · simp [h3]
 
-private theorem digit_lt (b d : UInt8) (h : digit b = some d) : d.toNat < 16 := by
+theorem digit_lt (b d : UInt8) (h : digit b = some d) : d.toNat < 16 := by
   have := digit_hexVal b
   rw [h] at this
   simp at this
@@ -133,7 +133,7 @@ private theorem digit_lt (b d : UInt8) (h : digit b = some d) : d.toNat < 16 := 
       · simp at this
 
 /-- The generated loop body in terms of `digit`. -/
-private theorem loop_cons (v : Bytes) (b : UInt8) (rest : Bytes) (i : Int) (n : UInt64) :
+theorem loop_cons (v : Bytes) (b : UInt8) (rest : Bytes) (i : Int) (n : UInt64) :
     parseHexUint_loop1 v (b :: rest) i n =
       match digit b with
       | none => none
@@ -150,7 +150,7 @@ private theorem loop_cons (v : Bytes) (b : UInt8) (rest : Bytes) (i : Int) (n : 
       · simp [h1, h2, h3]
 
 /-- Within 16 digits the loop is the model's accumulator (no overflow of the `uint64`). -/
-private theorem loop_short (v : Bytes) : ∀ (rest : Bytes) (k : Nat) (n : UInt64),
+theorem loop_short (v : Bytes) : ∀ (rest : Bytes) (k : Nat) (n : UInt64),
     k + rest.length ≤ 16 → n.toNat < 16 ^ k →
     (parseHexUint_loop1 v rest (k : Int) n).map UInt64.toNat = parseHexAcc n.toNat rest := by
   intro rest
@@ -180,7 +180,7 @@ private theorem loop_short (v : Bytes) : ∀ (rest : Bytes) (k : Nat) (n : UInt6
       simp [parseHexAcc, ← hd]
 
 /-- More than 16 bytes: the loop fails (at an invalid byte or at index 16). -/
-private theorem loop_long (v : Bytes) : ∀ (rest : Bytes) (k : Nat) (n : UInt64),
+theorem loop_long (v : Bytes) : ∀ (rest : Bytes) (k : Nat) (n : UInt64),
     k ≤ 16 → 16 < k + rest.length → parseHexUint_loop1 v rest (k : Int) n = none := by
   intro rest
   induction rest with
